@@ -272,6 +272,11 @@ pub fn run(a: &Args, rep: &mut Reporter) {
             let mut k = Knobs::base();
             k.max_items = 4;
             k.big_points = r.chance(1, 10);
+            if idx % 40 == 7 {
+                k.full_packets = true;
+                k.max_records = 1 + ((idx / 40) % 6) as usize;
+                k.max_items = 2;
+            }
             k.meta_heavy = r.chance(1, 3);
             k.wild_strings = k.meta_heavy;
             if idx % 3 == 0 {
